@@ -693,6 +693,8 @@ func (e *Enc) execInstr(ins ssa.Instruction, st *State) {
 				name = a.Comment
 			case *ssa.FreeVar:
 				name = a.Name()
+			case *ssa.Parameter:
+				name = a.Name() // *p = v through a pointer parameter p
 			case *ssa.FieldAddr:
 				if pt, ok := a.X.Type().Underlying().(*types.Pointer); ok {
 					if stt, ok := pt.Elem().Underlying().(*types.Struct); ok {
